@@ -9,6 +9,13 @@ sys.path.insert(0, HERE)
 
 
 def main():
+    # start from the signal dispositions of an interactive run, whatever the caller's were (a background job of a
+    # non-interactive shell ignores SIGINT/SIGQUIT, and every child inherits that)
+    import signal
+    signal.signal(signal.SIGINT, signal.default_int_handler)
+    for sig in (signal.SIGTERM, signal.SIGQUIT):
+        signal.signal(sig, signal.SIG_DFL)
+    signal.pthread_sigmask(signal.SIG_UNBLOCK, {signal.SIGINT, signal.SIGTERM, signal.SIGQUIT})
     ap = argparse.ArgumentParser()
     ap.add_argument('prop')
     ap.add_argument('--tier', default=os.environ.get('VERIF_TIER', 'quick'))
